@@ -96,7 +96,7 @@ Lemma small_methods_tie :
      ["data = self.data[frame_indexes]"; "confidence = self.confidence[frame_indexes]";
       "return self.__class__(fps=self.fps, data=data, confidence=confidence)"]
   /\ Gen_C12.body_frame_dropout_given_percent =
-     ["data_len = len(self.data)"; "dropout_number = min(int(data_len * dropout_percent), int(data_len * 0.99))";
+     ["data_len = len(self.data)"; "dropout_number = min(int(data_len * dropout_percent), int(data_len * CONST))";
       "dropout_indexes = set(sample(range(0, data_len), dropout_number))";
       "select_indexes = [i for i in range(0, data_len) if i not in dropout_indexes]";
       "return (self.select_frames(select_indexes), select_indexes)"]
@@ -123,4 +123,82 @@ Lemma numpy_methods_tie :
   /\ Gen_C12.numpy_body_tensorflow =
      ["tf_confidence = tensorflow.constant(self.confidence)"; "tf_data = tensorflow.constant(self.data.data)";
       "return TensorflowPoseBody(self.fps, tf_data, tf_confidence)"].
+Proof. repeat split; reflexivity. Qed.
+
+(* the literal transcriptions, named so that props/C12.v can state the tie in one theorem *)
+Definition getattr_literal : list string :=
+  [ "if attr not in Pose.pass_through_methods:
+    raise AttributeError(""Attribute '%s' doesn't exist on class Pose"" % attr)";
+    "def func(*args, **kwargs):
+    prop = getattr(self.body, attr)
+    body_res = prop(*args, **kwargs)
+    if isinstance(body_res, PoseBody):
+        header = self.header
+        if hasattr(header, attr):
+            header_res = getattr(header, attr)(*args, **kwargs)
+            if isinstance(header_res, PoseHeader):
+                header = header_res
+        return Pose(header, body_res)
+    return body_res";
+    "return func" ].
+Definition slice_step_literal : list string :=
+  ["new_data = self.data[::by]"; "new_confidence = self.confidence[::by]"; "new_fps = self.fps / by";
+   "return self.__class__(fps=new_fps, data=new_data, confidence=new_confidence)"].
+Definition select_frames_literal : list string :=
+  ["data = self.data[frame_indexes]"; "confidence = self.confidence[frame_indexes]";
+   "return self.__class__(fps=self.fps, data=data, confidence=confidence)"].
+Definition dropout_literal : list string :=
+  ["data_len = len(self.data)"; "dropout_number = min(int(data_len * dropout_percent), int(data_len * CONST))";
+   "dropout_indexes = set(sample(range(0, data_len), dropout_number))";
+   "select_indexes = [i for i in range(0, data_len) if i not in dropout_indexes]";
+   "return (self.select_frames(select_indexes), select_indexes)"].
+Definition flip_literal : list string :=
+  ["vec = np.ones(self.data.shape[-1])"; "vec[axis] = -1"; "data = self.data * vec"; "return NumPyPoseBody(self.fps, data, self.confidence)"].
+Definition get_points_literal : list string :=
+  ["data = ma.transpose(self.data, axes=POINTS_DIMS)"; "new_data = ma.transpose(data[indexes], axes=POINTS_DIMS)";
+   "confidence_reshape = (2, 1, 0)"; "confidence = np.transpose(self.confidence, axes=confidence_reshape)";
+   "new_confidence = np.transpose(confidence[indexes], axes=confidence_reshape)";
+   "return NumPyPoseBody(self.fps, new_data, new_confidence)"].
+Lemma transcribed_methods_tie :
+  Gen_C12.pose_getattr = getattr_literal /\ Gen_C12.bbox_stack = ["ma.min(c, axis=0)"; "ma.max(c, axis=0)"]
+  /\ Gen_C12.header_bbox_component_args = ["c.name"; "box_points"; "box_limbs"; "box_colors"; "c.format"]
+  /\ Gen_C12.header_total_points = ["return sum(map(lambda c: len(c.points), self.components))"]
+  /\ Gen_C12.header_num_dims = ["return max([len(c.format) for c in self.components]) - 1"]
+  /\ Gen_C12.pose_copy = ["return self.__class__(self.header, self.body.copy())"]
+  /\ Gen_C12.body_slice_step = slice_step_literal /\ Gen_C12.body_select_frames = select_frames_literal
+  /\ Gen_C12.body_frame_dropout_given_percent = dropout_literal
+  /\ Gen_C12.numpy_body_flip = flip_literal /\ Gen_C12.numpy_body_get_points = get_points_literal
+  /\ Gen_C12.numpy_body_matmul = ["data = ma.dot(self.data, matrix)"; "return NumPyPoseBody(self.fps, data, self.confidence)"]
+  /\ Gen_C12.numpy_body_copy = ["return type(self)(fps=self.fps, data=self.data.copy(), confidence=self.confidence.copy())"].
+Proof. repeat split; reflexivity. Qed.
+
+(* the in-place operations of Pose (their effect on the mask is hand-modelled in normalize / normalize_distribution / focus_np) *)
+Definition focus_literal : list string :=
+  [ "mins = ma.min(self.body.data, axis=(0, 1, 2))";
+    "maxs = ma.max(self.body.data, axis=(0, 1, 2))";
+    "if np.count_nonzero(mins) > 0:
+    self.body.data = ma.subtract(self.body.data, mins)";
+    "dimensions = (maxs - mins).tolist()";
+    "self.header.dimensions = PoseHeaderDimensions(*dimensions)" ].
+Definition normalize_literal : list string :=
+  [ "if info is None:
+    from pose_format.utils.generic import pose_normalization_info
+    info = pose_normalization_info(self.header)";
+    "transposed = self.body.points_perspective()";
+    "p1s = transposed[info.p1]";
+    "p2s = transposed[info.p2]";
+    "center = ((p2s + p1s) / 2).mean(axis=(0, 1))";
+    "self.body.data -= center";
+    "mean_distance = distance_batch(p1s, p2s).mean()";
+    "scale = scale_factor / mean_distance";
+    "self.body.data = self.body.data * scale";
+    "return self" ].
+Definition normalize_distribution_literal : list string :=
+  [ "mu = mu if mu is not None else self.body.data.mean(axis=axis)";
+    "std = std if std is not None else self.body.data.std(axis=axis)";
+    "self.body.data = (self.body.data - mu) / std";
+    "return (mu, std)" ].
+Lemma in_place_methods_tie :
+  Gen_C12.pose_focus = focus_literal /\ Gen_C12.pose_normalize = normalize_literal
+  /\ Gen_C12.pose_normalize_distribution = normalize_distribution_literal.
 Proof. repeat split; reflexivity. Qed.
